@@ -56,6 +56,40 @@ def e1_cases(N, measures=("JACCARD", "COSINE", "DICE"), chunk=250, grid=100):
                 yield {"measure": measure, "threshold": t, "triples": [list(x) for x in part]}
 
 
+def e1_exact_cases(N, measures=("JACCARD", "COSINE", "DICE"), grid=100, chunk=120, nmin=1):
+    """Wide but sparse size sweep: every (n,m,o), n,m<=N, whose similarity equals a threshold
+    of the two-decimal grid *exactly* (in rational arithmetic) -- the pairs whose required
+    overlap / prefix length are integers that floating point may render one ulp off."""
+    for measure in measures:
+        by_g = {}
+        for n in range(nmin, N + 1):
+            for m in range(nmin, N + 1):
+                for g in range(1, grid + 1):
+                    if measure == "JACCARD":
+                        # o/(n+m-o) = g/grid  <=>  o = g(n+m)/(grid+g)
+                        num, den = g * (n + m), grid + g
+                    elif measure == "DICE":
+                        # 2o/(n+m) = g/grid  <=>  o = g(n+m)/(2 grid)
+                        num, den = g * (n + m), 2 * grid
+                    else:
+                        # o/sqrt(nm) = g/grid  <=>  (o*grid)^2 = g^2 n m
+                        sq = g * g * n * m
+                        r = int(round(sq ** 0.5))
+                        if r * r != sq or r % grid:
+                            continue
+                        num, den = r // grid, 1
+                    if num % den:
+                        continue
+                    o = num // den
+                    if 1 <= o <= min(n, m):
+                        by_g.setdefault(g, []).append((n, m, o))
+        for g in sorted(by_g):
+            t = g / float(grid)
+            tr = [x for x in by_g[g] if oracle.classify(measure, x[0], x[1], x[2], t, ">=") == "must"]
+            for part in chunks(tr, chunk):
+                yield {"measure": measure, "threshold": t, "triples": [list(x) for x in part]}
+
+
 def e1_tables(triples):
     """Left row i / right row i share o tokens of frequency 2 and carry private tokens of
     frequency 1: rarest-first ordering puts all common tokens last in both rows."""
